@@ -50,6 +50,30 @@ def _queue_name(do_node, path, index, qparam):
     return ast.Name(id='?', ctx=ast.Load())
 
 
+def _spawned_function(an, first, payload):
+    """the coroutine function whose call is handed to ``scope.do``: a module level one or
+    one nested in ``first``"""
+    if not (isinstance(payload, ast.Call) and isinstance(payload.func, ast.Name)):
+        return None
+    for fn in an.p.functions.values():
+        if fn.name == payload.func.id and fn.kind == 'coroutine' and (
+                fn.parent is first or (fn.parent is None and fn.cls is None
+                                       and fn.module is first.module)):
+            return fn
+    return None
+
+
+def _monitor_queue(an, monitor):
+    """the name the monitor calls ``.put`` on (a parameter or a closure variable)"""
+    names = set()
+    for path in an.paths(Callee(monitor, None)):
+        for index, event in enumerate(path.events):
+            if event.kind in ('call', 'enter') and event.depth == 0 and \
+                    is_call_to(event, 'put') and isinstance(event.node.func, ast.Attribute):
+                names.add(rules.value_text(path, index, event.node.func.value))
+    return names.pop() if len(names) == 1 else None
+
+
 def _contains(outer, inner) -> bool:
     return any(sub is inner for sub in ast.walk(outer))
 
@@ -117,7 +141,7 @@ def run(check, an: Analysis):
     check.rule('Y', 'must-yield (per step for first)')
     collect = an.fn(MOD + '.collect')
     first = an.fn(MOD + '.first')
-    monitor = an.fn(MOD + '._first_monitor')
+    monitors = {}   # discovered: the coroutine function spawned per activity
 
     # ---- collect ---------------------------------------------------------------
     withs = _scope_withs(an, collect)
@@ -259,21 +283,32 @@ def run(check, an: Analysis):
                     vol_ok = False
                     bad_do = bad_do or (path, index)
                 payload = rules.value_expr(path, index, node.args[0]) if node.args else None
-                good = isinstance(payload, ast.Call) and \
-                    ast.unparse(payload.func).split('.')[-1] == monitor.name
+                monitor = _spawned_function(an, first, payload)
+                good = monitor is not None
                 if good:
+                    monitors[monitor.qn] = monitor
                     mparams = [a.arg for a in monitor.node.args.args]
                     bound = dict(zip(mparams, payload.args))
                     bound.update({kw.arg: kw.value for kw in payload.keywords})
-                    contestant = bound.get(mparams[0])
-                    queue = bound.get(mparams[1])
+                    contestant = bound.get(mparams[0]) if mparams else None
                     loops = [e for e in events[:index] if e.kind == 'iter-next'
                              and e.depth == 0]
-                    good = contestant is not None and queue is not None and loops and \
-                        ast.unparse(contestant) == ast.unparse(loops[-1].node.target) and \
-                        isinstance(queue, ast.Call) and ast.unparse(queue.func) == 'Queue'
-                    if good:
-                        queues.add(ast.unparse(_queue_name(node, path, index, mparams[1])))
+                    good = contestant is not None and bool(loops) and \
+                        ast.unparse(contestant) == ast.unparse(loops[-1].node.target)
+                    # where the monitor puts: a queue parameter, or a local of first()
+                    # that the nested function closes over
+                    target = _monitor_queue(an, monitor)
+                    if good and target in mparams and target in bound:
+                        queue = bound[target]
+                        good = isinstance(queue, ast.Call) and \
+                            ast.unparse(queue.func) == 'Queue'
+                        if good:
+                            queues.add(ast.unparse(_queue_name(node, path, index, target)))
+                    elif good and target is not None and monitor.parent is first and \
+                            target in _queue_locals(path, index):
+                        queues.add(target)
+                    else:
+                        good = False
                 if not good:
                     mon_ok = False
                     bad_do = bad_do or (path, index)
@@ -350,23 +385,26 @@ def run(check, an: Analysis):
                    'GeneratorExit at the yield runs Scope.__aexit__(GeneratorExit) without '
                    'suspending (%d paths)' % len(closed), analysed=len(closed))
     # the monitor
-    mparams = [a.arg for a in monitor.node.args.args]
-    mpaths = an.paths(Callee(monitor, None))
-    ok, n_put = True, 0
-    for path in mpaths:
-        puts = [(i, e) for i, e in enumerate(path.events)
-                if e.kind in ('call', 'enter') and e.depth == 0 and is_call_to(e, 'put')]
-        if path.normal and len(puts) != 1:
-            ok = False
-        for index, event in puts:
-            n_put += 1
-            node = event.node
-            ok &= rules.value_text(path, index, node.func.value) == mparams[1] and \
-                len(node.args) == 1 and \
-                rules.value_text(path, index, node.args[0]) == 'await %s' % mparams[0]
-    check.instance('first', '_first_monitor', ok and n_put > 0, where_fn(monitor),
-                   'awaits the contestant and puts exactly its result '
-                   '(%d puts on paths)' % n_put, analysed=len(mpaths))
+    ok, n_put = len(monitors) == 1, 0
+    for monitor in monitors.values():
+        mparams = [a.arg for a in monitor.node.args.args]
+        target = _monitor_queue(an, monitor)
+        mpaths = an.paths(Callee(monitor, None))
+        for path in mpaths:
+            puts = [(i, e) for i, e in enumerate(path.events)
+                    if e.kind in ('call', 'enter') and e.depth == 0 and is_call_to(e, 'put')]
+            if path.normal and len(puts) != 1:
+                ok = False
+            for index, event in puts:
+                n_put += 1
+                node = event.node
+                ok &= rules.value_text(path, index, node.func.value) == target and \
+                    len(node.args) == 1 and bool(mparams) and \
+                    rules.value_text(path, index, node.args[0]) == 'await %s' % mparams[0]
+    check.instance('first', '_first_monitor', ok and n_put > 0, where_fn(first),
+                   'the spawned coroutine (%s) awaits the contestant and puts exactly its '
+                   'result (%d puts on paths)' % (
+                       sorted(short(q) for q in monitors), n_put))
     # aborting the rest: closing children iterates copies (a closed child removes itself)
     for name in ('_close_children', '_close_volatile'):
         fn = an.method(SCOPE, name)
